@@ -148,9 +148,9 @@ Example C05_equiv_example :
                       if String.eqb n "c" then Some (VS false (NR (z2f 3))) else None in
   d5 rho e = true /\
   exists c, compile np_tables rho0 e = Some c /\
-            c_source c = "def _expr(_v0, _v1, _v2): return (np.add.reduce((_v0*_v1))-((-_v2)/np.maximum.reduce(_v1)))" /\
+            c_params c = ["_v0"; "_v1"; "_v2"] /\ c_syms c = ["a"; "b"; "c"] /\
             exists v, run_compiled np_tables call_guard c rho = Ok v /\ interp rho e = Ok v.
 Proof.
   cbv zeta. split; [vm_compute; reflexivity |]. eexists. split; [vm_compute; reflexivity |].
-  split; [vm_compute; reflexivity |]. eexists. split; vm_compute; reflexivity.
+  split; [vm_compute; reflexivity |]. split; [vm_compute; reflexivity |]. eexists. split; vm_compute; reflexivity.
 Qed.
